@@ -388,6 +388,9 @@ class Parser:
             ty = self.peek(1)[1]
             self.i += 3
             return ("cast", ty, self.unary())
+        if self.at("(") and self.at("const", 1) and self.at("char", 2) and self.at("*", 3) and self.at(")", 4):
+            self.i += 5
+            return ("cast", "cstr", self.unary())
         if self.at("&") and self.peek(1)[0] == "id":
             self.eat()
             return ("addr", self.eat()[1])
@@ -480,9 +483,9 @@ LEAN_KEYWORDS = {"end", "at", "from", "fun", "in", "do", "then", "else", "if", "
                  "where", "by", "def", "instance", "structure", "class", "variable", "local", "private", "mutual", "section",
                  "namespace", "import", "theorem", "example", "calc", "for", "return", "unless", "try", "catch", "finally", "mut",
                  "nomatch", "using", "prefix", "infix", "notation", "macro", "syntax", "deriving", "extends", "universe", "set_option"}
-LEAN_TYPE = {"kern": "K", "cptr": "Ptr", "argvp": "Nat", "optp": "Nat", "usize": "Nat", "int": "Int", "bool": "Bool", "string": "List Nat",
+LEAN_TYPE = {"penv": "PEnv", "kern": "K", "cptr": "Ptr", "argvp": "Nat", "optp": "Nat", "usize": "Nat", "int": "Int", "bool": "Bool", "string": "List Nat",
              "strlist": "List (List Nat)"}
-LEAN_DEFAULT = {"kern": "⟨[], []⟩", "cptr": "Ptr.null", "argvp": "0", "optp": "0", "usize": "0", "int": "0", "bool": "false", "string": "[]", "strlist": "[]"}
+LEAN_DEFAULT = {"penv": "[]", "kern": "⟨[], []⟩", "cptr": "Ptr.null", "argvp": "0", "optp": "0", "usize": "0", "int": "0", "bool": "false", "string": "[]", "strlist": "[]"}
 
 
 def fld(name):
@@ -619,6 +622,10 @@ class Fn:
                     return k("char", f"(toChar {term})")
                 if e[1] == "pid_t" and ty == "usize" and self.proc:
                     return k("usize", term)                 # a pid is a pid
+                if e[1] == "int" and ty == "usize" and self.proc:
+                    return k("int", f"(toInt32 {term})")
+                if e[1] == "cstr" and ty == "string" and self.proc:
+                    return k("cstring", term)               # `operator const char*()` of a String: its (NUL-free) bytes
                 raise Refuse(f"{self.name}: ({e[1]}) of a {ty}")
             return self.cexpr(e[2], kk)
         if kind == "un":
@@ -769,6 +776,21 @@ class Fn:
         if kind == "bool":
             return (kt if e[1] else kf).text
         ite = lambda c: f"if {c} then\n{ind(kt.text)}\nelse\n{ind(kf.text)}"
+        if (self.proc and kind == "bin" and e[1] == "==" and e[3] == ("num", 0) and e[2][0] == "call" and e[2][1] in ("unsetenv", "setenv")):
+            name, args = e[2][1], e[2][2]
+            if (name == "unsetenv" and len(args) != 1) or (name == "setenv" and (len(args) != 3 or args[2] != ("num", 1))):
+                raise Refuse(f"{self.name}: {name} is not called as `unsetenv(name)` / `setenv(name, value, 1)`")
+            terms = []
+            for a in args[:2 if name == "setenv" else 1]:
+                box = []
+                self.cexpr(a, lambda ty, term: box.append((ty, term)) or "")
+                if len(box) != 1 or box[0][0] != "cstring":
+                    raise Refuse(f"{self.name}: argument of {name} is not `(const char*)<String>`")
+                terms.append(box[0][1])
+            t = self.tmp()
+            prim = "envUnset" if name == "unsetenv" else "envSet"
+            return (f"let {t} := {prim} s.env {' '.join(terms)}\nlet s := {{ s with env := {t}.2 }}\n"
+                    f"if {t}.1 = true then\n{ind(kt.text)}\nelse\n{ind(kf.text)}")
         if (self.proc and kind == "bin" and e[1] == "!=" and e[2][0] == "call" and e[2][1] == "waitpid"):
             args, rhs = e[2][2], e[3]
             pidarg = args[0][2] if args and args[0][0] == "cast" else (args[0] if args else None)
@@ -941,6 +963,12 @@ class Fn:
                     if t1 != "usize":
                         raise Refuse(f"{self.name}: ::kill({t1}, SIGKILL)")
                     return self.update("k", f"K.kill s.k {x1} SIGKILL", lambda: k.text)
+                return self.cexpr(args[0], k1)
+            if name == "_exit" and len(args) == 1:
+                def k1(t1, x1):
+                    if t1 != "int":
+                        raise Refuse(f"{self.name}: _exit({t1})")
+                    return self.update("k", f"K.exit s.k {x1}", lambda: "some (.ret () s)")     # does not return: what follows is dropped
                 return self.cexpr(args[0], k1)
             if name in self.callees:
                 return self.cexpr(e, lambda ty, term: k.text)
@@ -1204,10 +1232,11 @@ def generate_proc(repo):
         "isRunning": (["bool", "Process", "::", "isRunning", "(", ")", "const"], "bool", []),
         "close": (["void", "Process", "::", "close", "(", "uint", "streams", ")"], "void", [("streams", "usize")]),
         "ctor": (["Process", "::", "Process", "(", ")", ":", "pid", "(", "0", ")"], "void", []),
+        "exit": (["void", "Process", "::", "exit", "(", "uint32", "exitCode", ")"], "void", [("exitCode", "usize")]),
     }
     docs = {"join": "bool Process::join(uint32& exitCode)", "join0": "bool Process::join()", "dtor": "Process::~Process()",
             "kill": "bool Process::kill()", "isRunning": "bool Process::isRunning() const", "close": "void Process::close(uint streams)",
-            "ctor": "Process::Process() : pid(0)"}
+            "ctor": "Process::Process() : pid(0)", "exit": "static void Process::exit(uint32 exitCode)"}
     bodies = {n: parse_body(find_body(cpp, sg[0], "Process::" + n), n) for n, sg in sigs.items()}
     allvars = dict(members)
     for n, sg in sigs.items():
@@ -1215,7 +1244,7 @@ def generate_proc(repo):
             if allvars.get(v, t) != t:
                 raise Refuse(f"{n}: parameter `{v}` clashes with another variable")
             allvars[v] = t
-    fns, order = {}, ["join", "join0", "dtor", "kill", "isRunning", "close", "ctor"]
+    fns, order = {}, ["join", "join0", "dtor", "kill", "isRunning", "close", "ctor", "exit"]
     callees = {"join": {1: ("join", ["exitCode"])}}
     for n in order:                                        # one record for all: collect the locals first
         f = Fn(n, "PS", sigs[n][1], allvars, consts, streams, False, [m for m, _ in members])
@@ -1236,12 +1265,23 @@ def generate_proc(repo):
         out_blocks.append("\n\n".join(blocks))
     rec = ("structure PS where\n" + "".join(f"  {fld(v)} : {LEAN_TYPE[t]}\n" for v, t in allvars.items()) + "\n"
            "def PS.zero : PS :=\n  { " + ", ".join(f"{fld(v)} := {LEAN_DEFAULT[t]}" for v, t in allvars.items()) + " }\n")
+    # static bool Process::setEnvironmentVariable(const String& name, const String& value): its own record
+    evars = {"name": "string", "value": "string", "env": "penv"}
+    fe = Fn("setEnvironmentVariable", "ES", "bool", evars, {}, {}, False)
+    fe.proc = True
+    ebody = parse_body(find_body(cpp, ["bool", "Process", "::", "setEnvironmentVariable", "(", "const", "String", "&", "name", ",",
+                                       "const", "String", "&", "value", ")"], "Process::setEnvironmentVariable"), "setEnvironmentVariable")
+    eblocks = fe.function(ebody, "`static bool Process::setEnvironmentVariable(const String& name, const String& value)` (POSIX branch)")
+    if fe.vars != evars:
+        raise Refuse("setEnvironmentVariable: local declarations")
+    erec = ("structure ES where\n" + "".join(f"  {fld(v)} : {LEAN_TYPE[t]}\n" for v, t in evars.items()))
     out = ["/- generated by tools/gen_args.py from src/Process.cpp and include/nstd/Process.hpp — do not edit -/",
            "import Nstd.Args.CSemProc", "", "set_option linter.unusedVariables false", "", "namespace Nstd.Args.GenP",
            "open Nstd.Args Nstd.Args.C", "", "/-- `enum Stream` -/"]
     out += [f"def {k} : Nat := {v}" for k, v in streams.items()]
     out += ["", "/-- data members of `class Process` (POSIX), the parameters and locals of the translated member functions, `errno`, the kernel ghost -/",
-            rec, "\n\n".join(out_blocks), "", "end Nstd.Args.GenP", ""]
+            rec, "\n\n".join(out_blocks), "", "/-- parameters of `setEnvironmentVariable`, the environment of the process (ghost) -/", erec,
+            "\n\n".join(eblocks), "", "end Nstd.Args.GenP", ""]
     return "\n".join(out)
 
 
